@@ -16,7 +16,7 @@ K = {
     "C01-K2": k("C01-K2", "c01_k2_god_byte_only", stubs=ST),
     "C01-K3": k("C01-K3", "c01_k3_select_primary", covers=2, stubs=SF),
     "C11-K4": k("C11-K4", "c11_k4_finalize_flags", "bounded", stubs=ST, covers=2, bound="page size 4096, regions of 1 header page + 1024 data pages; every stored region count, every u64 file length"),
-    "C01-K4": k("C01-K4", "c01_k4_finalize_uses_file_len", stubs=ST, covers=2,
+    "C01-K4": k("C01-K4", "c01_k4_finalize_uses_file_len", stubs=ST, covers=2, tier="thorough",
                 bound="page size 4096 (every region geometry, every u64 file length): loop-free, complete for that page size"),
     "C01-K4b": k("C01-K4b", "c01_k4b_finalize_rejects_truncation", stubs=ST, covers=1, tier="thorough", bound="page size 4096"),
     "C01-K6a": k("C01-K6a", "c01_k6_ids_increase"),
@@ -266,7 +266,7 @@ P["C08"] = {
 }
 P["C01"] = {
     "level": "proof",
-    "kani": [K["C01-K1"], K["C01-K2"], K["C01-K3"], K["C01-K4"], K["C01-K4b"], K["C01-K6a"], K["C01-K6b"]],
+    "kani": [K["C01-K1"], K["C01-K2"], K["C01-K3"], alias("C11-K4", "C01-K4q"), K["C01-K4"], K["C01-K4b"], K["C01-K6a"], K["C01-K6b"]],
     "verus": [{"unit": "alloc", "functions": ["DatabaseLayout::recalculate", "DatabaseLayout::len", "RegionLayout::len", "lemma_round_up", "lemma_div_exact", "lemma_mul_le"]},
               {"unit": "alloc", "functions": ["TransactionalMemory::commit", "TransactionalMemory::non_durable_commit", "TransactionalMemory::try_shrink", "DatabaseHeader::*", "lemma_xor1",
                                               "Mutex::lock", "drop", "TransactionId::gt_id"]},
@@ -278,7 +278,7 @@ P["C01"] = {
     "assumptions": ["E1 (txepilogue unit): the page store, the tracker and the allocator handle log what reaches them (TransactionalMemory::commit / non_durable_commit / free_if_unpersisted are verified on the real code in unit alloc); a failing page-store call changes nothing; the allocator handle is a field of the transaction model (rule RX); Vec::drain(..) hands out every element in order and leaves the queue empty (model iterator, rule R18); the parameters of the wrappers are what the dropped first halves of the two functions compute (roots, the queue of replaced system-tree pages, the set-aside unpersisted pages - distinct and unpersisted)", "D1 (dbopen unit): the page store logs load / repair / commit / begin_writable; get_allocator_state_table answers Some exactly when the saved state is valid (verified in unit openstate); do_repair yields the repaired roots (verified in unit repair); the repair callback may do anything to the session it is handed; rule RX: the array pattern became two index reads; `mem` is the page store itself instead of an Arc around it", "O1 (openproto unit): see C20", "R1 (repair unit): whether the trees of the current primary slot verify is a ghost flag of the page-store model (verify_primary_checksums returns it, and reports a Corrupted error only for trees that do not verify - the real walk is verified in dbverify / tableverify / merkle); repair_primary_corrupted swaps the two slots; rebuild_allocator_state and clear_recovery_required change only their own flag; the repair callback may do anything to the session it is handed (rule RX turns `&(dyn Fn(&mut RepairSession) + 'static)` into `&impl Fn(&mut RepairSession)`, `&mut Arc<TransactionalMemory>` into `&mut TransactionalMemory`, and the array pattern `let [a, b] = e?` into two index reads)",
                     "T9: TransactionalMemory::write_header hands the 320-byte image of exactly the header it is given to the storage layer, and PagedCachedFile::flush makes everything handed over before it durable; each appends its event to the ghost trace on success and its event or nothing on failure (assumed contracts of the storage model in the alloc unit; the page cache itself is not verified)",
                     "M1: std::sync::Mutex is modelled for ONE thread: lock() never fails and lends the protected value, drop(guard) returns it unchanged; the functions that reach state through &self take &mut self in the unit (rule RX on the signature); DatabaseHeader::clone copies every field; a 64-bit target (global size_of usize == 8)"],
-    "explanation": "Kernel of the crash argument of docs/design.md: (K5) the REAL body of TransactionalMemory::commit (whole function, over a one-thread model of the state mutex and a ghost trace of the storage events) produces exactly W(h1) [F if two_phase] W(h2) F [Resize(len) if the commit trimmed the file], where h1 is the header (after the optional trim: same slots and flags, never a longer layout) with the new commit staged in the secondary slot and the OLD god byte, and h2 differs from h1 only in the primary bit and the 2PC bit; on a failing write or sync only a prefix of that sequence reaches the storage (the flip never precedes the sync it depends on, the file is cut only after the header with the shorter layout is durable); on success h2 is published, reads return to the primary and the unpersisted set is emptied; on failure the published header is NOT the new commit; with the I/O latch set nothing happens at all; non_durable_commit stages the commit in the in-memory secondary slot, sets read_from_secondary, adds the pages to the unpersisted set and reaches the storage with nothing; (R) the REAL decision procedure of crash recovery (Database::do_repair, primary_verifies): a repaired database runs on a primary slot whose trees verify; the other slot is used only when the primary did not verify, at most once, and never after a two-phase commit (whose primary must be intact: Corrupted is reported instead); the recovery flag is cleared only after the allocator state was rebuilt, and every failure - corruption of both slots, I/O error, abort by the callback - leaves it set so that the next open repairs again; a Corrupted error from the walk counts as 'does not verify', any other error propagates; (E) the REAL commit point of WriteTransaction::durable_commit hands TransactionalMemory::commit exactly this transaction's roots, id, commit strategy (one- or two-phase) and shrink policy, and touches nothing else before it returned Ok; (N) a NEW file gets its magic number only in a second header write, after the initialised header was flushed (REAL open protocol of TransactionalMemory::new, unit openproto); on open, a full repair ends with a two-phase commit of the repaired roots before the file is marked open-for-writing (REAL decision of Database::new, unit dbopen); (K1) a written commit slot decodes to itself and verifies; (K2) the commit point is ONE byte: flipping primary / 2PC / recovery flags changes only byte 9; (K3) slot selection never returns a slot that failed verification, keeps the primary under 2PC, otherwise the newer valid slot wins; (K4) with recovery_required the layout is rebuilt from the file length whatever the stored counts were (page size 4096; the unbounded counterpart is Verus DatabaseLayout::recalculate: the rebuilt layout never extends past the file); (K6) transaction ids strictly increase and reserving a repair id never lowers the next id.",
+    "explanation": "Kernel of the crash argument of docs/design.md: (K5) the REAL body of TransactionalMemory::commit (whole function, over a one-thread model of the state mutex and a ghost trace of the storage events) produces exactly W(h1) [F if two_phase] W(h2) F [Resize(len) if the commit trimmed the file], where h1 is the header (after the optional trim: same slots and flags, never a longer layout) with the new commit staged in the secondary slot and the OLD god byte, and h2 differs from h1 only in the primary bit and the 2PC bit; on a failing write or sync only a prefix of that sequence reaches the storage (the flip never precedes the sync it depends on, the file is cut only after the header with the shorter layout is durable); on success h2 is published, reads return to the primary and the unpersisted set is emptied; on failure the published header is NOT the new commit; with the I/O latch set nothing happens at all; non_durable_commit stages the commit in the in-memory secondary slot, sets read_from_secondary, adds the pages to the unpersisted set and reaches the storage with nothing; (R) the REAL decision procedure of crash recovery (Database::do_repair, primary_verifies): a repaired database runs on a primary slot whose trees verify; the other slot is used only when the primary did not verify, at most once, and never after a two-phase commit (whose primary must be intact: Corrupted is reported instead); the recovery flag is cleared only after the allocator state was rebuilt, and every failure - corruption of both slots, I/O error, abort by the callback - leaves it set so that the next open repairs again; a Corrupted error from the walk counts as 'does not verify', any other error propagates; (E) the REAL commit point of WriteTransaction::durable_commit hands TransactionalMemory::commit exactly this transaction's roots, id, commit strategy (one- or two-phase) and shrink policy, and touches nothing else before it returned Ok; (N) a NEW file gets its magic number only in a second header write, after the initialised header was flushed (REAL open protocol of TransactionalMemory::new, unit openproto); on open, a full repair ends with a two-phase commit of the repaired roots before the file is marked open-for-writing (REAL decision of Database::new, unit dbopen); (K1) a written commit slot decodes to itself and verifies; (K2) the commit point is ONE byte: flipping primary / 2PC / recovery flags changes only byte 9; (K3) slot selection never returns a slot that failed verification, keeps the primary under 2PC, otherwise the newer valid slot wins; (K4) with recovery_required the layout is rebuilt from the file length whatever the stored counts were (quick tier: one region geometry, C01-K4q - bounded; thorough tier: every geometry of page size 4096, C01-K4, 5-15 minutes of SAT solving; the unbounded counterpart is Verus DatabaseLayout::recalculate: the rebuilt layout never extends past the file); (K6) transaction ids strictly increase and reserving a repair id never lowers the next id.",
     "not_decided": "2^W write subsets, page data and checksums reaching the cache before the first header write (finalize_dirty_checksums, whole-program), what the page cache does with writes and flushes (assumed, T9), begin_writable / clear_recovery_required / flush_shutdown_header (they hold the state lock across calls on self, which the one-thread Mutex model cannot express), what WriteTransaction::durable_commit does BEFORE its commit point (freed-page processing, allocation records, allocator snapshot), concurrency, histories, recovery re-crash",
 }
 P["C12"] = {
